@@ -22,7 +22,10 @@ RULE = ('every legal DSL module program up to the tier size (statements: param, 
         'compact classes A/B and setup class S) x BFS over apply histories '
         '(mutable filter alphabet x dict/FrozenDict input) from the state init returns; '
         'a state is non-trivial when its program has a non-params variable or a child; '
-        'distinct = distinct (program, canonical variable state)')
+        'distinct = distinct (program, canonical variable state); plus tree-valued variables: '
+        'argument shape {flat, nested, list, FrozenDict} x write {none, same, full, partial, deep} '
+        'x {init, init_with_output, apply with the variable present/absent} x caller-owned '
+        'filter object {list, set, tuple, str, True, False, ...} x capture_intermediates')
 ASSUMPTIONS = [
   'programs are those expressible in the DSL; data are small integers in float32',
   'leaf arrays are immutable jax arrays: sharing leaves between input and output is not aliasing',
@@ -37,7 +40,8 @@ FILTERS = [False, True, 'params', 'stats', ['stats', 'cnt'], {'deny': 'params'},
 def bounds(tier):
   return dict(statements=3 if tier == 'quick' else 4, nesting=2,
               history_depth=2 if tier == 'quick' else 3, filters=len(FILTERS),
-              containers=['dict', 'FrozenDict'])
+              containers=['dict', 'FrozenDict'], tree_shapes=len(TREE_SHAPES),
+              tree_writes=len(TREE_WRITES), tree_filters=len(TREE_FILTERS))
 
 
 LEAVES = [('param', 'a', 's'), ('param', 'a', 'v'), ('var', 'stats', 'a', 'acc'),
@@ -71,6 +75,9 @@ def units(tier, seed):
   us = []
   for i in range(0, len(progs), chunk):
     us.append(dict(progs=[[c, dsl.tolist(d)] for c, d in progs[i:i + chunk]]))
+  # structured arguments used as tree-valued variables; filter objects passed by the caller
+  for shape in TREE_SHAPES:
+    us.append(dict(tree=shape))
   return us
 
 
@@ -118,6 +125,9 @@ def _merge(state, upd):
 
 def run_unit(unit):
   res = core.new_result()
+  if 'tree' in unit:
+    _run_tree(res, unit['tree'])
+    return res
   for cls, dl in unit['progs']:
     d = dsl.fromlist(dl)
     _run_prog(res, cls, d)
@@ -487,6 +497,174 @@ def _run_core(res, d):
             core.violation(res, f'core-immutable-returned|{pkey}|{hs}', c, case)
       core.outcome(res, 'core:ok')
   res['nontrivial'].append(core.h(pkey))
+
+
+TREE_SHAPES = ['flat', 'nested', 'list', 'frozen']
+TREE_WRITES = ['none', 'same', 'full', 'partial', 'deep']
+TREE_FILTERS = [('list', lambda: ['cache']), ('set', lambda: {'cache'}), ('tuple', lambda: ('cache',)),
+                ('str', lambda: 'cache'), ('true', lambda: True), ('false', lambda: False),
+                ('set-params', lambda: {'params'}), ('list-both', lambda: ['cache', 'params'])]
+
+
+def _tree_arg(shape):
+  import jax.numpy as jnp
+  from flax.core import freeze
+  a, c, e = jnp.asarray(1., jnp.float32), jnp.asarray([2., 3.], jnp.float32), jnp.asarray(5., jnp.float32)
+  if shape == 'flat':
+    return {'a': a, 'b': c}
+  if shape == 'nested':
+    return {'a': a, 'b': {'c': c, 'd': {'e': e}}}
+  if shape == 'list':
+    return {'a': a, 'b': [c, {'e': e}]}
+  return freeze({'a': a, 'b': {'c': c}})
+
+
+def _tree_module(write):
+  import jax
+  import flax.linen as nn
+
+  class TreeVar(nn.Module):
+    @nn.compact
+    def __call__(self, carry, x):
+      v = self.variable('cache', 'carry', lambda: carry)
+      w = self.param('w', lambda k: x * 0 + 2)
+      self.sow('intermediates', 's', x)
+      cur = v.value
+      bump = lambda t: jax.tree.map(lambda l: l + 1, t)
+      if write == 'same':
+        v.value = cur
+      elif write == 'full':
+        v.value = bump(cur)
+      elif write == 'partial':
+        v.value = {'a': cur['a'] + 1}
+      elif write == 'deep':
+        b = cur['b']
+        if isinstance(b, (list, tuple)):
+          v.value = {'b': [b[0] + 1] + list(b[1:])}
+        elif not hasattr(b, 'keys'):
+          v.value = {'b': b + 1}
+        else:
+          k0 = sorted(b.keys())[0]
+          v.value = {'b': {k0: bump(b[k0])}}
+      return x * w + cur['a']
+  return TreeVar()
+
+
+def _dict_ids(t, out=None):
+  """ids of the dicts reachable through dicts only: the containers a scope can merge a write
+  into (dicts below a list are opaque values to it)."""
+  out = set() if out is None else out
+  if isinstance(t, dict):
+    out.add(id(t))
+    for v in t.values():
+      _dict_ids(v, out)
+  return out
+
+
+def _run_tree(res, shape):
+  """Arguments that are trees (dict / nested dict / list / FrozenDict) and end up as the initial
+  value of a variable, and `mutable` filters passed as caller-owned objects: none of them may
+  be changed by init/apply, whatever the program later writes to that variable."""
+  import jax
+  import jax.numpy as jnp
+  from flax import errors
+  x = jnp.asarray([1., 2.], jnp.float32)
+  rngs = {'params': jax.random.key(1)}
+
+  def snap(t):
+    return (canon_tree(t, True), tuple(sorted(container_ids(t))) if not isinstance(t, (set, frozenset)) else ())
+
+  def fsnap(f):
+    return (type(f).__name__, repr(sorted(f)) if isinstance(f, (set, frozenset)) else repr(f))
+
+  for write in TREE_WRITES:
+    m = _tree_module(write)
+    msnap = _snap_module(m)
+    case0 = dict(shape=shape, write=write)
+    # ---- init: the argument becomes the variable's initial value -------------
+    for phase in ('init', 'init_with_output'):
+      arg = _tree_arg(shape)
+      before = snap(arg)
+      res['evals'] += 2
+      key = f'tree|{shape}|{write}|{phase}'
+      try:
+        r1 = getattr(m, phase)(rngs, arg, x)
+        arg_after = snap(arg)
+        r2 = getattr(m, phase)(rngs, _tree_arg(shape), x)
+      except Exception as e:  # noqa
+        if shape == 'frozen' and write in ('partial', 'deep', 'full', 'same'):
+          core.outcome(res, 'tree-init-raises:' + type(e).__name__)
+          if snap(arg) != before:
+            core.violation(res, 'tree-arg-changed|' + key, 'a raising init changed its argument', case0)
+          continue
+        core.violation(res, 'tree-init-raises|' + key, f'{type(e).__name__}: {e}'[:200], case0)
+        continue
+      if arg_after != before:
+        core.violation(res, 'tree-arg-changed|' + key,
+                       f'{phase} changed the tree passed as an argument in place',
+                       dict(case0, phase=phase), observed=jsonable(np_tree(arg)),
+                       expected=jsonable(np_tree(_tree_arg(shape))))
+      if canon_tree(r1, True) != canon_tree(r2, True):
+        core.violation(res, 'tree-init-nondet|' + key, 'same inputs, different result', case0)
+      # (the program stores its argument on purpose, so sharing containers between the
+      # argument and the returned variables is not asserted; only "inputs do not change")
+      if _snap_module(m) != msnap:
+        core.violation(res, 'tree-module-changed|' + key, 'module changed', case0)
+      core.outcome(res, f'tree-init:{write}')
+      res['nontrivial'].append(core.h(key))
+    # ---- apply: variable present / absent x filter objects x capture ----------
+    vars_full = m.init(rngs, _tree_arg('flat' if shape == 'frozen' else shape), x)
+    for present in (True, False):
+      for fname, mk in TREE_FILTERS:
+        for capture in (False, True):
+          f = mk()
+          fb = fsnap(f)
+          vin = jax.tree.map(lambda l: l, vars_full if present else {'params': vars_full['params']})
+          vb = snap(vin)
+          arg = _tree_arg(shape)
+          ab = snap(arg)
+          key = f'tree|{shape}|{write}|apply|{present}|{fname}|{capture}'
+          res['evals'] += 1
+          res['transitions'] += 1
+          err = None
+          try:
+            r = m.apply(vin, arg, x, mutable=f, capture_intermediates=capture)
+          except Exception as e:  # noqa
+            err = e
+          if fsnap(f) != fb:
+            core.violation(res, 'tree-filter-changed|' + key,
+                           'apply changed the `mutable` filter object passed by the caller',
+                           dict(case0, filter=fname, capture=capture), observed=fsnap(f)[1],
+                           expected=fb[1])
+          if snap(arg) != ab:
+            core.violation(res, 'tree-arg-changed|' + key,
+                           'apply changed the tree passed as an argument in place',
+                           dict(case0, filter=fname, present=present, capture=capture),
+                           observed=jsonable(np_tree(arg)))
+          if snap(vin) != vb:
+            core.violation(res, 'tree-vars-changed|' + key, 'apply changed the variables passed in',
+                           dict(case0, filter=fname, present=present, capture=capture))
+          if _snap_module(m) != msnap:
+            core.violation(res, 'tree-module-changed|' + key, 'module changed', case0)
+          if err is not None:
+            core.outcome(res, 'tree-apply-raises:' + type(err).__name__)
+            continue
+          # same filter object again: same collections come back (no state kept in the filter)
+          res['evals'] += 1
+          r2 = m.apply(vin, _tree_arg(shape), x, mutable=f, capture_intermediates=False)
+          r3 = m.apply(vin, _tree_arg(shape), x, mutable=mk(), capture_intermediates=False)
+          if canon_tree(r2, True) != canon_tree(r3, True):
+            core.violation(res, 'tree-filter-stateful|' + key,
+                           'reusing the same filter object after a call gives a different result '
+                           'than a fresh equal filter', dict(case0, filter=fname, capture=capture))
+          if isinstance(r, tuple) and f is not False:
+            upd = r[1]
+            if _dict_ids(upd) & _dict_ids(vin):
+              core.violation(res, 'tree-alias|' + key,
+                             'returned updates share a dict with the variables passed in',
+                             dict(case0, filter=fname, present=present))
+            core.outcome(res, 'tree-apply:' + ','.join(sorted(upd.keys())))
+          res['nontrivial'].append(core.h(key))
 
 
 def _scribble(t):
